@@ -99,4 +99,7 @@ theorem C07_range_translated (g : Governor) (h : g.idle ≤ g.max) (sig cmd : En
     ∃ e, nextStateT Consts.governorTable g sig cmd age = some e ∧ range g e = true :=
   ⟨_, C07_translation g sig cmd age, C07_range g h sig cmd age⟩
 
+/-- the envelope the governor clamps to is the one it was constructed with -/
+theorem C07_constructor_as_modelled : Consts.governorNewStoresItsArguments = true := by decide
+
 end Glonax.Thm.C07
